@@ -1150,11 +1150,15 @@ func TestCheck(t *testing.T) {
 	deadline := r.Deadline(80*time.Second, 11*time.Minute)
 	if _, child := runner.IsShard(); child {
 		runReloadSched(t, r) // a shard child of one schedule exploration: replies and exits inside
+		runExtSched(t, r)
 		r.Finish()
 	}
 	if p := runner.ReplayPath(); p != "" {
 		if raw, _ := os.ReadFile(p); bytes.Contains(raw, []byte(`"engine": "sched"`)) || bytes.Contains(raw, []byte(`"engine":"sched"`)) {
 			runReloadSched(t, r) // replays the recorded schedule of the matching exploration
+			runExtSched(t, r)
+		} else if bytes.Contains(raw, []byte(`"family": "reload-ext"`)) || bytes.Contains(raw, []byte(`"family":"reload-ext"`)) {
+			extReplayOne(t, r, raw)
 		} else {
 			runReplay(t, r, p)
 		}
@@ -1184,6 +1188,9 @@ func TestCheck(t *testing.T) {
 	if !skip("reload-seq") {
 		runReloadSequential(t, r)
 	}
+	if !skip("reload-ext-seq") {
+		runExtSequential(t, r)
+	}
 	t2 := time.Now()
 	if !skip("hmac") {
 		runHMAC(t, r, deadline)
@@ -1192,7 +1199,11 @@ func TestCheck(t *testing.T) {
 	if !skip("reload-sched") {
 		runReloadSched(t, r)
 	}
-	r.Set("wall_parts", fmt.Sprintf("tolerance=%.1fs reload-seq=%.1fs hmac=%.1fs reload-sched=%.1fs", t1.Sub(t0).Seconds(), t2.Sub(t1).Seconds(), t3.Sub(t2).Seconds(), time.Since(t3).Seconds()))
+	t4 := time.Now()
+	if !skip("reload-ext-sched") {
+		runExtSched(t, r)
+	}
+	r.Set("wall_parts", fmt.Sprintf("tolerance=%.1fs reload-seq+ext-seq=%.1fs hmac=%.1fs reload-sched=%.1fs reload-ext-sched=%.1fs", t1.Sub(t0).Seconds(), t2.Sub(t1).Seconds(), t3.Sub(t2).Seconds(), t4.Sub(t3).Seconds(), time.Since(t4).Seconds()))
 
 	r.Set("rule", "complete finite products, one real request per element through the ingress handler wired by startServers from DSL text. "+
 		"HMAC = {secret set: 1 inline | 2 overlapping secret_ref versions | inline+version (thorough: 3 adjacent versions with an open end, 1 s tolerance)} x {header names: default | custom} x "+
